@@ -2,6 +2,7 @@
    changed textual fact breaks the obligations of the properties that own it and not those of every module that imports their lemmas. -/
 import CosetProofs.Ties.ContextRouting
 import CosetProofs.Ties.HeaderFields
+import CosetProofs.Ties.Budget.Sign
 namespace Coset.Props.C03
 
 /-! ### ties to the source text (regenerated on every run, compared in the kernel with the transcribed tree) -/
@@ -12,5 +13,10 @@ theorem tie_header_is_empty : Coset.Gen.headerFields = Coset.Pinned.headerFields
 
 #print axioms tie_context_routing
 #print axioms tie_header_is_empty
+
+/-- decision budget of `src/sign/mod.rs`: no branch, comparison or integer literal beyond the transcribed tree's (a needle no stream reaches still adds one). -/
+theorem tie_budget_sign : Coset.Ties.budgetCovered "sign" Coset.Gen.decisionBudget Coset.Pinned.decisionBudget = true := Coset.Ties.budget_sign
+
+#print axioms tie_budget_sign
 
 end Coset.Props.C03
